@@ -360,7 +360,9 @@ class CHECK(Check):
             ls.append(f"saddle.select {proto.lst(gaps)} {proto.rat(F(case['sel']['nu']))} {len(gaps)}")
         rp = loop_replay(case, o) if "trace" in o else None
         if rp is not None:
-            ls.append(egreplay.loop_line(case, rp))     # always the LAST line of the case
+            if not rp.stuck:
+                ls += egreplay.lp_lines(rp)              # 2 lines per selected LP solve, just before ...
+            ls.append(egreplay.loop_line(case, rp))     # ... the loop line, always the LAST line of the case
         return ls
 
     @staticmethod
@@ -483,6 +485,16 @@ class CHECK(Check):
                     ch = lifted_changes()
                     probs.append(Problem("correspondence", msg + f"; lifted source fragment(s) changed: {ch}",
                                          "C08.loop (lifted) " + ",".join(ch)) if ch else Problem("harness", msg))
+                nlp = 0 if rp.stuck else 2 * len(egreplay.lp_selection(rp))
+                if nlp:
+                    lp_mo, mo = mo[-nlp:], mo[:-nlp]
+                    for kind, rel, msg in egreplay.lp_compare(rp, lp_mo)[:3]:
+                        if kind == "harness":
+                            ch = lifted_changes()
+                            probs.append(Problem("correspondence", msg + f"; lifted: {ch}", "C08.linprog (lifted)") if ch
+                                         else Problem("harness", msg))
+                        else:
+                            probs.append(Problem("correspondence", msg, rel))
         # -- model --------------------------------------------------------------------------------------------------
         if mo is not None:
             if case.get("sel") and mo:
@@ -577,4 +589,5 @@ class CHECK(Check):
                 if o.get("_loop_divergence_at_near_tie"):
                     tags.append("loop:divergence-at-near-tie(not compared)")
                 tags.append("loop:" + ("break" if rp.done else "max_iter"))
+                tags.append("linprog:solves=" + ("0" if not rp.lp_calls else "1-3" if rp.lp_calls <= 3 else "4+"))
         return (repr(sorted((k, str(v)) for k, v in case.items())), nontriv, tags)
